@@ -539,3 +539,7 @@ def check(run):
     from . import c18 as _c18
     run.rules_run.append("R18l")
     run.rule(_c18.r18l, run)
+    # round 8: shared helpers decided as tables (helper_table.py)
+    from . import helper_table as _ht
+    run.rules_run.append("R19f")
+    run.rule(_ht.r_copy, run)
